@@ -14,9 +14,11 @@
   establishes for reachable states), the engine contract of C11 (`casMissingNotFound = false`) and
   64-bit revisions: `WHyp`.
 
-  The recognisers modelled are the REPAIRED ones (/repo commit 4c41c58). The full statement for
-  transactions is now a theorem: `shim_sound` — every structurally valid transaction other than the
-  compactor's is either refused with an error (and nothing is executed: `refused_unchanged`) or answered
+  The recognisers modelled are the REPAIRED ones (/repo commits 4c41c58 and, for the compaction probe, 2870609).
+  The full statement for transactions is now a theorem: `shim_sound` — every structurally valid transaction other
+  than the compactor's (EXACTLY kube-apiserver's probe, compare / put / plain Get all on `compact_rev_key`:
+  `compact_probe_shape_exact`, `shim_sound_except_probe`; a near miss of it is refused: `near_probe_rejected`)
+  is either refused with an error (and nothing is executed: `refused_unchanged`) or answered
   with the projection etcd prescribes. What used to be executed as something else is refused
   (`key_mismatch_rejected`, `ranged_delete_rejected`, `mod0_delete_rejected`, `update_put_flags_rejected`,
   `op_options_rejected`; in general `executed_only_if_canonical`), and the unguarded delete of a missing
@@ -28,6 +30,7 @@
 import KB.Lemmas.Etcd
 import KB.Lemmas.EtcdRange
 import KB.Lemmas.EtcdShape
+import KB.Lemmas.EtcdProbe
 namespace KB.C16
 open KB KB.Etcd Generated
 
@@ -144,7 +147,8 @@ theorem empty_value_refused_k8s (c : Cfg) (s : BState) (k : Bytes) (lease : Int)
   · exact shimTxn_empty_value c s _ (.create k [] lease) (by rw [hrec.1]; rfl) rfl
   · exact shimTxn_empty_value c s _ (.update k [] (toU64 exp) lease) (by rw [hrec.2.1]; rfl) rfl
 
-/-- The compactor's transaction (`version(compact_rev_key) = n`) is answered with a canned "not your
+/-- The compactor's transaction (`classify t = .compact` ↔ `CompactProbe t`, the exact probe of kube-apiserver:
+`KB.Etcd.classify_compact_iff`, `compact_probe_shape_exact`) is answered with a canned "not your
 turn" and nothing is executed — a deliberate emulation, excluded from `shim_sound`. -/
 theorem compact_canned (c : Cfg) (s : BState) (t : TxnReq) (h : classify t = .compact) :
     shimTxn c s t = (.ok compactResp, s) := by
@@ -620,6 +624,185 @@ theorem unguarded_delete_lost_race_witness :
     backendCall (classify (k8sDeleteUnguarded kA)) = some (.delete kA 0) ∧
     shapeTxn (classify (k8sDeleteUnguarded kA)) (.resp false 1004 (some (kA, v9, 1003))) =
       .ok { ok := false, hdr := 1004, resps := [.range 1004 [(kA, v9, 1003)] 0 false], wrote := false } := by decide
+
+/-! ### the compaction probe (/repo 2870609)
+
+kube-apiserver's compactor probes with `If(Version(compact_rev_key) = n).Then(Put compact_rev_key).Else(Get
+compact_rev_key)`; kubebrain answers it with a canned "not your turn" and executes nothing (`compact_canned`; it
+compacts on its own). The recogniser of that probe used to look only at the compare and at the KIND of the two
+operations: `If(Version(compact_rev_key) = n).Then(Put <any key>).Else(Range <any key or range>)` was answered with the
+canned answer — neither rejected nor executed, the put silently dropped, an invented key-value as the answer of the
+read (`old_probe_recogniser_swallowed_put`). It is now as strict as the other recognisers (`KB.Etcd.isCompact`,
+`CompactProbe`): the canned answer is given to the probe and to nothing else (`compact_probe_shape_exact`), every
+near miss is refused like any other unsupported transaction (`near_probe_rejected`). So the exception
+`classify t ≠ .compact` of `shim_sound` / `executed_only_if_canonical` is exactly "`t` is not the probe"
+(`answered_only_if_canonical_or_probe`, `shim_sound_except_probe`): nothing else hides behind it. -/
+
+/-- the probe as kube-apiserver sends it (compact.go: the compared version `n`, the new compact revision as the value) -/
+def k8sCompactProbe (n : Int) (v : Bytes) : TxnReq :=
+  { compare := [{ target := .version, key := compactRevKey, int := n }],
+    success := [.put { key := compactRevKey, val := v }],
+    failure := [.range { key := compactRevKey }] }
+
+/-- THE PROBE IS RECOGNISED: kube-apiserver's probe — for every compared version and value; in general every
+transaction of the shape `CompactProbe` (compare, put and plain Get on `compact_rev_key`; lease, limit / sort order
+of the Get free) — takes the compactor's branch, is answered with the canned answer (`Succeeded = false`, header 0,
+one range response holding one empty key-value, Count 1) and the state is unchanged: nothing is executed. -/
+theorem compact_probe_recognised (c : Cfg) (s : BState) :
+    (∀ n v, CompactProbe (k8sCompactProbe n v)) ∧
+    (∀ t, CompactProbe t → classify t = .compact ∧
+      shimTxn c s t =
+        (.ok { ok := false, hdr := 0, resps := [.range 0 [([], [], 0)] 1 false], wrote := false }, s)) := by
+  refine ⟨fun n v => .mk _ _ _ ⟨rfl, rfl, rfl, rfl⟩ rfl rfl rfl rfl (plainGet_of_key compactRevKey), ?_⟩
+  intro t h
+  have hcl := classify_compact_iff.mpr h
+  exact ⟨hcl, compact_canned c s t hcl⟩
+
+example : CompactProbe (k8sCompactProbe 3 v9) ∧
+    (shimTxn cfg0 s3 (k8sCompactProbe 3 v9)).1 = .ok compactResp := ⟨(compact_probe_recognised cfg0 s3).1 3 v9, by decide⟩
+
+/-- THE PROBE'S SHAPE IS EXACT: a transaction that is answered as the probe — it takes the compactor's branch, or
+merely: its answer IS the canned answer, on any state — has ONE compare, `Version(compact_rev_key) = n` without
+`range_end`, ONE success op, a put on `compact_rev_key` without prev_kv / ignore_value / ignore_lease, and ONE
+failure op, a plain Get of `compact_rev_key` (no `range_end`, revision, count_only, keys_only, filters). -/
+theorem compact_probe_shape_exact (c : Cfg) (s : BState) (t : TxnReq)
+    (h : classify t = .compact ∨ (shimTxn c s t).1 = .ok compactResp) :
+    ∃ cm p g, t = { compare := [cm], success := [.put p], failure := [.range g] } ∧
+      cm.target = .version ∧ cm.result = .equal ∧ cm.key = compactRevKey ∧ cm.rangeEnd = [] ∧
+      p.key = compactRevKey ∧ p.prevKv = false ∧ p.ignoreValue = false ∧ p.ignoreLease = false ∧
+      g.key = compactRevKey ∧ PlainGet g compactRevKey := by
+  have hcl : classify t = .compact := by
+    rcases h with h | h
+    · exact h
+    · obtain ⟨a, ha⟩ := shimTxn_fst_shape c s t
+      rw [ha] at h
+      exact shapeTxn_eq_compactResp h
+  obtain ⟨cm, p, g, ⟨h1, h2, h3, h4⟩, hp, f1, f2, f3, hg⟩ := classify_compact_iff.mp hcl
+  exact ⟨cm, p, g, rfl, h1, h2, h3, h4, hp, f1, f2, f3, hg.1, hg⟩
+
+example : classify (k8sCompactProbe 0 v1) = .compact ∧ (shimTxn cfg0 s3 (k8sCompactProbe 0 v1)).1 = .ok compactResp := by
+  decide
+
+/-- A NEAR MISS OF THE PROBE IS REFUSED: a transaction guarded by a VERSION compare with one put and one read —
+the probe's compare, `Version(compact_rev_key) = n`, in particular — in which the put or the read is on another
+key, the read is ranged / at a revision / count_only / keys_only / filtered (`¬ PlainGet`), the put carries
+prev_kv / ignore_value / ignore_lease, or the compare has a `range_end` (or another key or result), is answered with the
+"unsupported transaction" error and the state is unchanged: nothing is executed, nothing is answered as the probe. -/
+theorem near_probe_rejected (c : Cfg) (s : BState) (cm : Compare) (p : PutReq) (g : RangeReq)
+    (hver : cm.target = .version)
+    (hnear : p.key ≠ compactRevKey ∨ ¬ PlainGet g compactRevKey ∨
+      p.prevKv = true ∨ p.ignoreValue = true ∨ p.ignoreLease = true ∨
+      cm.rangeEnd ≠ [] ∨ cm.key ≠ compactRevKey ∨ cm.result ≠ .equal) :
+    classify { compare := [cm], success := [.put p], failure := [.range g] } = .unsupported ∧
+    shimTxn c s { compare := [cm], success := [.put p], failure := [.range g] } = (.error .unsupported, s) := by
+  have hcl : classify { compare := [cm], success := [.put p], failure := [.range g] } = .unsupported := by
+    apply classify_version_not_probe
+    · intro x hx
+      simp at hx
+      rw [hx]
+      exact hver
+    · simp
+    · intro hp
+      obtain ⟨c', p', g', heq, ⟨_, h2, h3, h4⟩, hpk, f1, f2, f3, hg⟩ := hp.inv
+      simp only [TxnReq.mk.injEq, List.cons.injEq, and_true, Op.put.injEq, Op.range.injEq] at heq
+      obtain ⟨rfl, rfl, rfl⟩ := heq
+      rcases hnear with h | h | h | h | h | h | h | h
+      · exact h hpk
+      · exact h hg
+      · rw [f1] at h; cases h
+      · rw [f2] at h; cases h
+      · rw [f3] at h; cases h
+      · exact h h4
+      · exact h h3
+      · exact h h2
+  exact ⟨hcl, (refused_unchanged c s _).1 hcl⟩
+
+/-- ... and so is every other transaction guarded by VERSION compares that is not the probe: two puts, no failure
+branch, a failure branch with several ops, a delete, several compares … -/
+theorem near_probe_rejected_general (c : Cfg) (s : BState) (t : TxnReq)
+    (hver : ∀ cm ∈ t.compare, cm.target = .version) (hne : t.compare ≠ []) (hnp : ¬ CompactProbe t) :
+    shimTxn c s t = (.error .unsupported, s) :=
+  (refused_unchanged c s t).1 (classify_version_not_probe hver hne hnp)
+
+/-- the near misses of the correspondence check (kbcheck/props/c16.py `near_probe_misses`, witness script
+`near_probe_rejected`) classify as unsupported: put on another key; read of another key; ranged read; read
+count_only / keys_only / at a revision; put with prev_kv / ignore_value / ignore_lease; compare with `range_end`;
+two puts; no failure branch -/
+theorem near_probe_rejected_witness :
+    let cmp : Compare := { target := .version, key := compactRevKey }
+    let K := compactRevKey
+    classify { compare := [cmp], success := [.put { key := kA, val := v9 }], failure := [.range { key := K }] } = .unsupported ∧
+    classify { compare := [cmp], success := [.put { key := K, val := v9 }], failure := [.range { key := kB }] } = .unsupported ∧
+    classify { compare := [cmp], success := [.put { key := kA, val := v9 }], failure := [.range { key := kB }] } = .unsupported ∧
+    classify { compare := [cmp], success := [.put { key := K, val := v9 }], failure := [.range { key := K, rangeEnd := pfxHi }] } = .unsupported ∧
+    classify { compare := [cmp], success := [.put { key := K, val := v9 }], failure := [.range { key := K, countOnly := true }] } = .unsupported ∧
+    classify { compare := [cmp], success := [.put { key := K, val := v9 }], failure := [.range { key := K, keysOnly := true }] } = .unsupported ∧
+    classify { compare := [cmp], success := [.put { key := K, val := v9 }], failure := [.range { key := K, revision := 1003 }] } = .unsupported ∧
+    classify { compare := [cmp], success := [.put { key := K, val := v9, prevKv := true }], failure := [.range { key := K }] } = .unsupported ∧
+    classify { compare := [cmp], success := [.put { key := K, val := v9, ignoreValue := true }], failure := [.range { key := K }] } = .unsupported ∧
+    classify { compare := [cmp], success := [.put { key := K, val := v9, ignoreLease := true }], failure := [.range { key := K }] } = .unsupported ∧
+    classify { compare := [{ cmp with rangeEnd := pfxHi }], success := [.put { key := K, val := v9 }], failure := [.range { key := K }] } = .unsupported ∧
+    classify { compare := [cmp], success := [.put { key := K, val := v9 }, .put { key := kA, val := v9 }], failure := [.range { key := K }] } = .unsupported ∧
+    classify { compare := [cmp], success := [.put { key := K, val := v9 }], failure := [] } = .unsupported := by decide
+
+example : ({ target := .version, key := compactRevKey } : Compare).target = .version ∧ kA ≠ compactRevKey ∧
+    ¬ PlainGet { key := kB } compactRevKey := ⟨rfl, by decide, fun h => absurd h.1 (by decide)⟩
+example : (∀ cm ∈ ({ compare := [{ target := .version, key := compactRevKey }], success := [.put { key := compactRevKey }] } : TxnReq).compare,
+      cm.target = .version) ∧
+    ¬ CompactProbe { compare := [{ target := .version, key := compactRevKey }], success := [.put { key := compactRevKey }] } :=
+  ⟨by simp, fun h => by obtain ⟨_, _, _, heq, _⟩ := h.inv; simp at heq⟩
+
+/-- the transaction of the refutation: the probe's compare, a put on /r/a, a read of /r/b -/
+def nearProbe : TxnReq :=
+  { compare := [{ target := .version, key := compactRevKey }], success := [.put { key := kA, val := v9 }],
+    failure := [.range { key := kB }] }
+
+/-- REFUTATION of the recogniser as it was before /repo 2870609 (`isCompactOld` / `shimTxnOld`): on `s3`
+(/r/a, /r/b, /r/c), `If(Version(compact_rev_key) = 0).Then(Put /r/a v9).Else(Get /r/b)` was taken for the probe and
+answered with the canned answer — NOT REJECTED (no error), NOT EXECUTED (store and revision counter unchanged; etcd
+takes the success branch — `compact_rev_key` does not exist, its version is 0 — and writes /r/a = v9 at 1004), and
+the answer is etcd's in neither branch (the failure branch would read /r/b, not an empty key-value). None of the
+supported recognisers accepts it and it is not `Canonical` (`nearProbe_not_canonical`). With the repaired recogniser
+the same transaction is refused. -/
+theorem old_probe_recogniser_swallowed_put :
+    isCompactOld nearProbe = true ∧ classifyOld nearProbe = .compact ∧
+    (shimTxnOld cfg0 s3 nearProbe).1 =
+      .ok { ok := false, hdr := 0, resps := [.range 0 [([], [], 0)] 1 false], wrote := false } ∧
+    (shimTxnOld cfg0 s3 nearProbe).2.store = s3.store ∧ (shimTxnOld cfg0 s3 nearProbe).2.dealt = s3.dealt ∧
+    (refTxn m3 nearProbe).map (fun x => (x.1.ok, x.1.wrote, x.1.hdr)) = .ok (true, true, 1004) ∧
+    (refTxn m3 nearProbe).map (fun x => (x.2.get kA).map KVFull.proj) = .ok (some (kA, v9, 1004)) ∧
+    isCreate nearProbe = none ∧ isDelete nearProbe = none ∧ isUpdate nearProbe = none ∧
+    isCompact nearProbe = false ∧ classify nearProbe = .unsupported ∧
+    (shimTxn cfg0 s3 nearProbe).1 = .error .unsupported := by decide
+
+theorem nearProbe_not_canonical : ¬ Canonical nearProbe := by
+  intro h
+  unfold nearProbe at h
+  cases h with
+  | update cm p g n hc _ _ _ => exact absurd hc.1 (by decide)
+
+/-- Whatever is answered without an error — NO exception — is `Canonical` or is the compaction probe answered with
+its canned answer: `executed_only_if_canonical` with its exception spelled out structurally. -/
+theorem answered_only_if_canonical_or_probe (c : Cfg) (s : BState) (t : TxnReq) (hreq : ReqOK t) (r : TxnResp)
+    (hok : (shimTxn c s t).1 = .ok r) : Canonical t ∨ (CompactProbe t ∧ r = compactResp) := by
+  by_cases hc : classify t = .compact
+  · right
+    rw [compact_canned c s t hc] at hok
+    cases hok
+    exact ⟨classify_compact_iff.mp hc, rfl⟩
+  · exact .inl (executed_only_if_canonical c s t hreq hc r hok)
+
+/-- `shim_sound` with its exception spelled out structurally: every structurally valid transaction that is not
+kube-apiserver's compaction probe (`CompactProbe`: compare, put and plain Get all on `compact_rev_key`) is refused
+with an error or answered as etcd prescribes — a transaction that merely LOOKS like the probe is covered. -/
+theorem shim_sound_except_probe (c : Cfg) (s : BState) (m : Mvcc) (t : TxnReq) (hreq : ReqOK t)
+    (hw : ∀ k, WHyp c s k) (ha : ∀ k, AbsAt c s m k) (h63 : s.dealt + 1 < 2 ^ 63) (hnp : ¬ CompactProbe t) :
+    (∃ e, (shimTxn c s t).1 = .error e) ∨ Agree c s m t :=
+  shim_sound c s m t hreq hw ha h63 (fun h => hnp (classify_compact_iff.mp h))
+
+example : ReqOK nearProbe ∧ ¬ CompactProbe nearProbe :=
+  ⟨⟨by decide, by simp [nearProbe, Op.keyGiven, kA], by simp [nearProbe, Op.keyGiven, kB], by decide⟩,
+   fun h => by have := classify_compact_iff.mpr h; revert this; decide⟩
 
 /-! ### reads -/
 
